@@ -8,6 +8,10 @@ NOTES = ("Model-based verification with explicit TLA+ specifications (specs/). E
 NOT_APPLICABLE = {}
 TRUST = "TLC and the Json community module; the renderer/tokeniser glue in lib/pp.py; the hook lines in /repo; bounded universes as stated in the evidence file"
 CHECKS = {
+ "C10": {"level": "model_checking", "design_ref": "DESIGN.md 4.2, 5 (C10), Appendix A.8-A.10",
+         "technique": "TLA+ spec Preproc with a file-system model, model-checked with TLC against a big-step reference with declarative IEEE 22.4 resolution; TLC-exported file-system configurations and include graphs materialised on disk and run through the real preprocessor; traces validated by TLC (Preproc_Trace)",
+         "text": "For every presence pattern of the target in {cwd,d1,d2} x every include-path order x ignore_include, and every include graph of the bound, the machine equals the reference in the model and the real library equals the machine on disk: file chosen (origin file of the spliced tokens), tokens, defines flowing in and out, Include{File{path}}, ReadUtf8 behind include levels, IncludeLine for 17 line placements, both quoting styles, macro-named files, same file twice, fan-out.",
+         "note": TRUST},
  "C09": {"level": "model_checking", "design_ref": "DESIGN.md 4.2, 5 (C09)",
          "technique": "TLA+ spec Preproc with Limit=3 model-checked with TLC over all include/usage graphs (safety: depth and stack bounded, machine = big-step reference; liveness: Terminates under weak fairness; refutation of the unthreaded-counter design); graphs and chains/cycles scaled to the real limit replayed into the preprocessor in isolated processes and validated by TLC with Limit=64",
          "text": "Every who-uses/includes-whom graph over 3 files and 2 macros (macros may expand to includes) is model-checked for termination, bounded depth and exact error wrapping, then executed by the real library; chains of depth 1..130 and cycles of length 1..4 for macros, includes and macro-include mixes are executed and judged by TLC with the real limit: Ok with the expanded text up to 64 levels, ExceedRecursiveLimit under exactly the predicted Include wrappers beyond; a hang or stack overflow is an observable timeout/crash outcome that the trace spec rejects.",
